@@ -12,6 +12,8 @@ sub-process exactly once and only after every inner token is consumed" means for
   model's domain (flagged, never silently merged).
 * `settle_holds_parent` (Props/C12): no parent token is released while a token is alive in its scope.
 * `return_needs_empty_scope`: whenever `settle` does release a parent token, its scope contains no live token.
+* `return_when_scope_empty`: and it IS released then — at the first moment the work list is empty and its scope holds no
+  live token, over the sub-process node's own outgoing flows.
 * `return_sub_once`: the released parent token is removed from `subs` in the same step — it cannot be released twice for
   one activation — and continues through `selectFlows` over the sub-process node's own outgoing flows.
 
@@ -116,6 +118,35 @@ theorem return_sub_once (cfg : Cfg) (hr : cfg.subNeverReturns = false) (p : Proc
       simp only
       split
       all_goals (split <;> (simp only []; rw [Bpmn.Props.C01Fragment.selectFlows_subs]; exact hfilter))
+
+/-- **Returning does happen.** As soon as the work list is empty, no inclusive gateway synchronises and the scope of an
+active sub-process holds no live token, `settle` releases that sub-process's parent token over the sub-process node's own
+outgoing flows (exactly what leaving any other node does: `selectFlows`) — it does not wait for anything else. -/
+theorem return_when_scope_empty (cfg : Cfg) (hr : cfg.subNeverReturns = false) (p : Proc) (s : St) (t : Tok) (n : Node)
+    (hig : (settleIncl cfg p s []).1 = none)
+    (hfind : (settleIncl cfg p s []).2.subs.find? (fun u => !liveInScope p (settleIncl cfg p s []).2 u.node []) = some t)
+    (hn : p.node? t.node = some n) :
+    ∃ s', (settle cfg p s).1 =
+      (if (selectFlows cfg p s' t n.outs false).2.1 then [t] ++ (selectFlows cfg p s' t n.outs false).1
+       else (selectFlows cfg p s' t n.outs false).1) ∧ t ∉ s'.subs := by
+  unfold settle
+  cases hsi : settleIncl cfg p s [] with
+  | mk r s1 =>
+    rw [hsi] at hig hfind
+    simp only at hig hfind
+    subst hig
+    simp only [hfind, hr, Bool.false_eq_true, if_false, hn]
+    refine ⟨{ s1 with subs := s1.subs.filter (· != t),
+                       subFired := if s1.subFired.contains t.node then s1.subFired else t.node :: s1.subFired }, ?_, ?_⟩
+    · split
+      all_goals (split <;> rename_i hc <;> simp [hc])
+    · intro hm
+      have h2 := (List.mem_filter.mp hm).2
+      have hself : (t != t) = false := by
+        obtain ⟨f, nd⟩ := t
+        simp [bne, BEq.beq, instBEqTok.beq]
+      rw [hself] at h2
+      exact absurd h2 (by decide)
 
 /-- **Programs with sub-processes are token-game programs** at the configuration extracted from today's /repo: any nesting
 depth, inside parallel branches, re-entered in loops — as long as the program has no inclusive gateway. -/
